@@ -3,16 +3,27 @@
 package main
 
 import (
+	"bufio"
+	"context"
+	"encoding/json"
 	"fmt"
+	"net"
 	"os"
 	"path/filepath"
 	"sort"
+	"strings"
 	"sync"
 	"sync/atomic"
 	"time"
 
+	"github.com/emitter-io/emitter/internal/broker"
+	"github.com/emitter-io/emitter/internal/config"
 	"github.com/emitter-io/emitter/internal/event"
 	"github.com/emitter-io/emitter/internal/event/crdt"
+	"github.com/emitter-io/emitter/internal/network/mqtt"
+	"github.com/emitter-io/emitter/internal/provider/logging"
+	"github.com/emitter-io/emitter/internal/security"
+	"github.com/emitter-io/emitter/internal/security/license"
 	"github.com/emitter-io/emitter/internal/service/cluster"
 	"github.com/emitter-io/emitter/internal/zzverif/vlib"
 	"github.com/weaveworks/mesh"
@@ -313,6 +324,158 @@ func banRace() (string, map[string]interface{}) {
 	return vlib.App("CBanRace", vlib.N(uint64(toggles)), vlib.N(uint64(wrong))), map[string]interface{}{"op": "lookups racing ban / unban toggles", "toggles": toggles, "stale_answers": wrong}
 }
 
+// ---- C14 at the request level: emitter/keyban/ requests and uses of the key against a real broker -----
+
+type nullGossip struct{}
+
+func (nullGossip) GossipUnicast(dst mesh.PeerName, msg []byte) error { return nil }
+func (nullGossip) GossipBroadcast(update mesh.GossipData)            {}
+func (nullGossip) GossipNeighbourSubset(update mesh.GossipData)      {}
+
+type quietLog struct{}
+
+func (quietLog) Name() string                                  { return "quiet" }
+func (quietLog) Configure(config map[string]interface{}) error { return nil }
+func (quietLog) Printf(format string, v ...interface{})        {}
+
+type reqClient struct {
+	conn net.Conn
+	pkts chan mqtt.Message
+}
+
+func newReqClient(svc *broker.Service) *reqClient {
+	a, b := net.Pipe()
+	c := &reqClient{conn: a, pkts: make(chan mqtt.Message, 256)}
+	svc.VerifAttach(b)
+	go func() {
+		rd := bufio.NewReaderSize(a, 65536)
+		for {
+			m, err := mqtt.DecodePacket(rd, 1<<20)
+			if err != nil {
+				close(c.pkts)
+				return
+			}
+			c.pkts <- m
+		}
+	}()
+	c.roundTrip(&mqtt.Connect{ClientID: []byte("c14")}, mqtt.TypeOfConnack)
+	return c
+}
+
+func (c *reqClient) roundTrip(m mqtt.Message, ack uint8) (got []mqtt.Message) {
+	m.EncodeTo(c.conn)
+	timeout := time.After(3 * time.Second)
+	for {
+		select {
+		case p, ok := <-c.pkts:
+			if !ok {
+				return
+			}
+			got = append(got, p)
+			if p.Type() == ack {
+				return
+			}
+		case <-timeout:
+			return
+		}
+	}
+}
+
+// statusOf: the status of the emitter response / error among the packets (0 = none: plain success)
+func statusOf(got []mqtt.Message) int {
+	for _, m := range got {
+		if p, ok := m.(*mqtt.Publish); ok && strings.HasPrefix(string(p.Topic), "emitter/") {
+			var e struct {
+				Status int `json:"status"`
+			}
+			json.Unmarshal(p.Payload, &e)
+			return e.Status
+		}
+	}
+	return 0
+}
+
+func banRequests(steps int) (string, map[string]interface{}) {
+	r := cfg.Rng
+	dir, _ := os.MkdirTemp(cfg.Out, "banreq")
+	defer os.RemoveAll(dir)
+	lic := license.NewV3()
+	start := func() *broker.Service {
+		conf := config.NewDefault().(*config.Config)
+		conf.License = lic.String()
+		conf.Cluster = &config.ClusterConfig{NodeName: "00:00:00:00:00:01", ListenAddr: ":4190", AdvertiseAddr: ":4190", Directory: dir}
+		svc, err := broker.NewService(context.Background(), conf)
+		if err != nil {
+			panic(err)
+		}
+		logging.Logger = quietLog{}
+		svc.VerifSwarm().VerifSetGossip(nullGossip{})
+		return svc
+	}
+	cipher, _ := lic.Cipher()
+	mk := func(perms uint8, target string, contract uint32) string {
+		k := security.Key(make([]byte, 24))
+		k.SetSalt(uint16(r.Intn(65536)))
+		k.SetMaster(1)
+		k.SetContract(contract)
+		k.SetSignature(lic.Signature())
+		k.SetPermissions(perms)
+		k.SetTarget(target)
+		e, _ := cipher.EncryptKey(k)
+		return e
+	}
+	master := mk(security.AllowMaster, "#/", lic.Contract())
+	targets := []string{mk(security.AllowRead|security.AllowWrite, "a/", lic.Contract()), mk(security.AllowRead|security.AllowWrite|security.AllowPresence, "a/", lic.Contract())}
+	clock := int64(1000)
+	tick := func() { clock += 10; setClock(clock, clock+1, clock+2, clock+3, clock+4, clock+5) }
+	tick()
+	svc := start()
+	cl := newReqClient(svc)
+	var ops []string
+	restarts := 0
+	for s := 0; s < steps; s++ {
+		k := r.Intn(2)
+		tick()
+		switch x := r.Intn(100); {
+		case x < 40: // ban / unban request signed by the master key
+			banned := r.Intn(2) == 0
+			req, _ := json.Marshal(map[string]interface{}{"secret": master, "target": targets[k], "banned": banned})
+			st := statusOf(cl.roundTrip(&mqtt.Publish{Header: mqtt.Header{QOS: 1}, MessageID: uint16(s + 1), Topic: []byte("emitter/keyban/"), Payload: req}, mqtt.TypeOfPuback))
+			ops = append(ops, vlib.App("RBan", vlib.N(uint64(k)), vlib.Bool(banned), vlib.Z(clock), vlib.N(uint64(st))))
+		case x < 48: // a request that must be refused: not a master key / a target of another contract
+			secret, target := targets[1-k], targets[k]
+			if r.Intn(2) == 0 {
+				secret, target = master, mk(security.AllowRead, "a/", lic.Contract()+1)
+			}
+			req, _ := json.Marshal(map[string]interface{}{"secret": secret, "target": target, "banned": true})
+			st := statusOf(cl.roundTrip(&mqtt.Publish{Header: mqtt.Header{QOS: 1}, MessageID: uint16(s + 1), Topic: []byte("emitter/keyban/"), Payload: req}, mqtt.TypeOfPuback))
+			ops = append(ops, vlib.App("RRefused", vlib.N(uint64(st))))
+		case x < 90: // the key is presented: publish, subscribe or presence
+			var st int
+			switch r.Intn(3) {
+			case 0:
+				st = statusOf(cl.roundTrip(&mqtt.Publish{Header: mqtt.Header{QOS: 1}, MessageID: uint16(s + 1), Topic: []byte(targets[k] + "/a/"), Payload: []byte("x")}, mqtt.TypeOfPuback))
+			case 1:
+				st = statusOf(cl.roundTrip(&mqtt.Subscribe{Header: mqtt.Header{QOS: 1}, MessageID: uint16(s + 1), Subscriptions: []mqtt.TopicQOSTuple{{Topic: []byte(targets[k] + "/a/")}}}, mqtt.TypeOfSuback))
+			default:
+				st = statusOf(cl.roundTrip(&mqtt.Unsubscribe{Header: mqtt.Header{QOS: 1}, MessageID: uint16(s + 1), Topics: []mqtt.TopicQOSTuple{{Topic: []byte(targets[k] + "/a/")}}}, mqtt.TypeOfUnsuback))
+			}
+			ops = append(ops, vlib.App("RUse", vlib.N(uint64(k)), vlib.N(uint64(st))))
+		default: // the broker restarts on the same state directory
+			cl.conn.Close()
+			svc.Close()
+			tick()
+			svc = start()
+			cl = newReqClient(svc)
+			restarts++
+			ops = append(ops, "RRestart")
+		}
+	}
+	cl.conn.Close()
+	svc.Close()
+	return vlib.App("CBanReq", vlib.List(ops)), map[string]interface{}{"ops": len(ops), "restarts": restarts}
+}
+
 func banHistory(steps int) (string, map[string]interface{}) {
 	r := cfg.Rng
 	dir, _ := os.MkdirTemp(cfg.Out, "ban")
@@ -451,7 +614,11 @@ func main() {
 			t, h := banRace()
 			sh.Add(t, h, "ban-race", true)
 		}
-		sh.Finish("random sequences of ban / unban / use on broker A over a real durable state directory, restarts of A on the same directory after any prefix, and full-state merges into a second durable broker B that has or has not looked the key up before; the persisted record's expiry after every ban / unban; two runs of 8 concurrent readers against 1.5 s of ban / unban toggles; non-trivial: all (every history has >= 10 operations)")
+		for i := 0; i < 12*cfg.Mult; i++ {
+			t, h := banRequests(15 + r.Intn(25))
+			sh.Add(t, h, "ban-requests", true)
+		}
+		sh.Finish("emitter/keyban/ requests (ban, unban, refused ones) and uses of the key (publish, subscribe, unsubscribe) through a real clustered broker.Service over in-memory connections, with restarts on the same state directory; random sequences of ban / unban / use on broker A over a real durable state directory, restarts of A on the same directory after any prefix, and full-state merges into a second durable broker B that has or has not looked the key up before; the persisted record's expiry after every ban / unban; two runs of 8 concurrent readers against 1.5 s of ban / unban toggles; non-trivial: all (every history has >= 10 operations)")
 		return
 	}
 	for i := 0; i < 150*cfg.Mult; i++ {
